@@ -7,5 +7,6 @@ ViewNoHist == <<w, price, fees, ntx, total, viol, Len(hist)>>
 MCInit == {[Zero EXCEPT !.bal = [a \in Accts |-> IF a \in MCFrom THEN ub[a]
                                                  ELSE IF a \in Contracts THEN cb ELSE 0]]
              : ub \in [MCFrom -> MCBals], cb \in MCCBals}
-MCTxSpace(ww) == {Mk(f, sh, v, Base(sh) + e) : f \in MCFrom, sh \in Shapes, v \in MCValues, e \in MCExtras}
+MCTxSpace(ww) == {t \in {Mk(f, sh, v, Base(sh) + e) : f \in MCFrom, sh \in Shapes, v \in MCValues, e \in MCExtras} :
+                    t.to \in NoValue => t.value = 0}
 ====
